@@ -36,6 +36,8 @@ pub mod cbc {
         { unimplemented!() }
     }
     pub uninterp spec fn recv_remaining<T>(it: &RecvIter<T>) -> Seq<T>;
+    /// the (finite, unknown) sequence of messages a receiver will deliver until the channel closes
+    pub uninterp spec fn recv_remaining_of<T>(r: &Receiver<T>) -> Seq<T>;
     impl<T> Iterator for RecvIter<T> {
         type Item = T;
         #[verifier::external_body]
@@ -53,7 +55,7 @@ pub mod cbc {
         type Item = T;
         type IntoIter = RecvIter<T>;
         #[verifier::external_body]
-        fn into_iter(self) -> RecvIter<T> { unimplemented!() }
+        fn into_iter(self) -> (r: RecvIter<T>) ensures recv_remaining(&r) == recv_remaining_of(&self) { unimplemented!() }
     }
 }
 
